@@ -9,6 +9,14 @@ def T(id, old, new, file="eqsig/stockwell.py", **kw):
 NP = "    fa = np.fft.fft(acc_db, n_factor)\n    diag_con = toeplitz(np.conj(fa[:n_d2 + 1]), fa)\n    diag_con = diag_con[1:n_d2 + 1, :]  # first line is zero frequency\n\n    stock = np.flipud(np.fft.ifft(diag_con * gaussian, axis=1))\n"
 SP = "    fa = fft(acc_db, n_factor, overwrite_x=True)\n    diag_con = toeplitz(np.conj(fa[:n_d2 + 1]), fa)\n    diag_con = diag_con[1:n_d2 + 1, :]  # first line is zero frequency\n    stock = np.flipud(ifft(diag_con * gaussian, axis=1))\n"
 VARIANTS = [
+    B("gauss-width-halved", "    return np.exp(-p ** 2 / 2).transpose()", "    return np.exp(-p ** 2 / 4).transpose()", "R-ST-GAUSS"),
+    B("gauss-pi-not-two-pi", "    p = 2 * np.pi * np.outer(f, 1. / f_half[1:])", "    p = np.pi * np.outer(f, 1. / f_half[1:])", "R-ST-GAUSS"),
+    B("gauss-not-squared", "    return np.exp(-p ** 2 / 2).transpose()", "    return np.exp(-p / 2).transpose()", "R-ST-GAUSS"),
+    B("gauss-frequency-step", "    f_half = np.arange(0, n_d2 + 1, 1) / (2 * n_d2)", "    f_half = np.arange(0, n_d2 + 1, 1) / n_d2", None),
+    B("gauss-negative-half-interior", "    f = np.concatenate((f_half, np.flipud(-f_half[1:-1])))", "    f = np.concatenate((f_half, np.flipud(-f_half[2:-1])))", None),
+    T("gauss-inline-p", "    p = 2 * np.pi * np.outer(f, 1. / f_half[1:])\n    return np.exp(-p ** 2 / 2).transpose()", "    return np.exp(-0.5 * (2 * np.pi * np.outer(f, 1. / f_half[1:])) ** 2).transpose()"),
+    T("gauss-two-pi-squared", "    return np.exp(-p ** 2 / 2).transpose()", "    q = p * p\n    return np.exp(-q / 2.0).transpose()"),
+    T("gauss-T-attribute", "    return np.exp(-p ** 2 / 2).transpose()", "    return np.exp(-p ** 2 / 2).T"),
     B("np-no-conj", NP, NP.replace("toeplitz(np.conj(fa[:n_d2 + 1]), fa)", "toeplitz(fa[:n_d2 + 1], fa)"), "R-ST-SIB"),
     B("sp-conj-both", SP, SP.replace("toeplitz(np.conj(fa[:n_d2 + 1]), fa)", "toeplitz(np.conj(fa[:n_d2 + 1]), np.conj(fa))"), "R-ST-SIB"),
     B("np-no-flip", NP, NP.replace("np.flipud(np.fft.ifft(diag_con * gaussian, axis=1))", "np.fft.ifft(diag_con * gaussian, axis=1)"), "R-ST-SIB"),
